@@ -213,7 +213,7 @@ def runModel (k : ModelKind) (items : List (Item Pt)) : List String :=
   | .statecount t => renderOuts (runNode (stateCountNode t) () items)
   | .wherecount m r => renderOuts (runNode (whereCountNode m r) () items)
   | .evalcount => renderOuts (runNode evalCountNode () items)
-  | .alert pr => renderOuts (runNode (alertNodeShared pr) 0 items)
+  | .alert pr => renderOuts (runNode (alertNode pr) () items)
   | .iql m => renderOuts (runNode (iqlNode m) {} items)
 
 /-- float sums / float comparisons are outside the concrete models -/
